@@ -446,11 +446,15 @@ theorem static_bitlist (lim : Nat) (a b : Key) (sa sb : Nat)
     | sel => simp [keyToStaticGindex] at hb
   | sel => simp [keyToStaticGindex] at ha
 
-/-- (`bytelist` has no `len` key in the library's `navigate_type`) -/
+/-- (`bytelist` has a `len` key, exactly like `bitlist`: the length mix-in leaf, local gindex 3) -/
 theorem static_bytelist (lim : Nat) (a b : Key) (sa sb : Nat)
     (ha : keyToStaticGindex (.bytelist lim) a = some sa)
     (hb : keyToStaticGindex (.bytelist lim) b = some sb) :
     sa = sb ↔ sameNode (.bytelist lim) a b = true := by
+  have htd : treeDepth (.bytelist lim) = getDepth ((lim + 31) / 32) + 1 := by
+    simp [treeDepth, contentsDepth, hasMixIn]
+  have hlt : ∀ i, i < lim → i / 32 < 2 ^ getDepth ((lim + 31) / 32) := fun i hi =>
+    Nat.lt_of_lt_of_le (by omega) (le_two_pow_getDepth _)
   cases a with
   | idx i =>
     simp only [keyToStaticGindex] at ha
@@ -463,9 +467,27 @@ theorem static_bytelist (lim : Nat) (a b : Key) (sa sb : Nat)
         · simp at hb
         · rw [toGindex_eq_iff ha hb]
           simp [sameNode, perChunk]
-      | len => simp [keyToStaticGindex] at hb
+      | len =>
+        simp [keyToStaticGindex] at hb
+        subst hb
+        rw [htd] at ha
+        have := toGindex_ne_three (hlt i (by omega)) ha
+        simp [sameNode, this]
       | sel => simp [keyToStaticGindex] at hb
-  | len => simp [keyToStaticGindex] at ha
+  | len =>
+    simp [keyToStaticGindex] at ha
+    subst ha
+    cases b with
+    | idx j =>
+      simp only [keyToStaticGindex] at hb
+      split at hb
+      · simp at hb
+      · rw [htd] at hb
+        have := toGindex_ne_three (hlt j (by omega)) hb
+        simp [sameNode]
+        omega
+    | len => simp [keyToStaticGindex] at hb; subst hb; simp [sameNode]
+    | sel => simp [keyToStaticGindex] at hb
   | sel => simp [keyToStaticGindex] at ha
 
 theorem static_union (hasNone : Bool) (opts : List Ty) (a b : Key) (sa sb : Nat)
